@@ -102,6 +102,7 @@ def gen_cases(ctx):
         rng = ctx.rng("itable", i)
         mv = linkcommon.gen_movie(rng, thorough=False)
         mv["stream"] = "itable"
+        mv["scale_pow"] = 0
         mv["entry"] = "link_df_iter"
         mv["index_kind"] = rng.choice(["range", "shuffled", "strings", "duplicates", "named_frame",
                                        "named_other"])
